@@ -200,6 +200,7 @@ Proof.
       * apply same_ctl_set_rq.
       * cbn [m_rq]. unfold abs. cbn. rewrite upd_nth_same; [reflexivity|]. rewrite Hmi. unfold abs. rewrite ?Ef, ?Ed. reflexivity.
       * cbn. congruence.
+      * cbn. congruence.
       * intros _. cbn. rewrite ?Hn. auto.
       * intros C. congruence.
       * intros _. cbn [r_finished r_disc]. rewrite ?Ef, ?Ed. discriminate.
@@ -225,3 +226,300 @@ Proof.
     + auto.
     + intros _ Hc. destruct HR as (_ & _ & _ & _ & HF & _). exact (HF i r Hi Hex Hc).
 Qed.
+
+(** ---------- firing the Deferreds of a completed request ---------- *)
+
+Lemma fire_run i (ok : bool) : forall l m x, nth_error (m_rq m) i = Some x -> x_pend x = l ->
+  (if ok then x_fin x else x_lost x) = true ->
+  mon_run m (map (fun d => EFired i d ok) l) =
+  Some (mkMon (upd (m_rq m) i (mkM (x_fin x) (x_lost x) (x_ndef x) [])) (m_open m) (m_head m) (m_dead m) (m_nw m) (m_paused m)).
+Proof.
+  induction l as [|d l IH]; intros m x Hn Hp Hok.
+  - cbn. destruct m, x. cbn in *. subst. rewrite upd_nth_same by exact Hn. reflexivity.
+  - cbn [map mon_run mon_step]. rewrite Hn, Hp. cbn [existsb]. rewrite Nat.eqb_refl. cbn [orb andb]. rewrite Hok.
+    cbn [remove_first]. rewrite Nat.eqb_refl.
+    rewrite (IH _ (mkM (x_fin x) (x_lost x) (x_ndef x) l)); cbn [m_rq m_open m_head m_dead m_nw m_paused x_fin x_lost x_ndef x_pend].
+    + rewrite upd_upd. reflexivity.
+    + apply nth_upd_same. eapply nth_some_lt, Hn.
+    + reflexivity.
+    + exact Hok.
+Qed.
+
+Lemma R_shrink i ex s m : R (i :: ex) s m -> (forall r, nth_error (s_rq s) i = Some r -> r_pending r = []) -> R ex s m.
+Proof.
+  unfold R. intros (A & B & C & D & F & G & J) Hp. repeat split; auto.
+  intros j r Hj Hex Hc. destruct (Nat.eq_dec j i) as [->|Hne]; [apply Hp, Hj|].
+  apply (F j r Hj); [|exact Hc]. intros [E|E]; [congruence|contradiction].
+Qed.
+
+Lemma R_grow i ex s m : R ex s m -> R (i :: ex) s m.
+Proof.
+  unfold R. intros (A & B & C & D & F & G & J). repeat split; auto.
+  intros j r Hj Hex Hc. apply (F j r Hj); [|exact Hc]. intro E. apply Hex. right. exact E.
+Qed.
+
+Lemma fire_sim ex s m i (ok : bool) r : R (i :: ex) s m -> nth_error (s_rq s) i = Some r ->
+  (if ok then r_finished r else r_disc r) = true ->
+  exists m', mon_run m (snd (fire i ok s)) = Some m' /\ R ex (fst (fire i ok s)) m'.
+Proof.
+  intros HR Hi Hok. unfold fire. rewrite Hi. cbn [fst snd].
+  pose proof (mon_nth _ _ _ _ _ HR Hi) as Hmi.
+  rewrite (fire_run i ok (r_pending r) m (abs r) Hmi eq_refl) by (destruct ok; exact Hok).
+  eexists. split; [reflexivity|]. apply (R_shrink i).
+  - eapply (R_upd (i :: ex) s m _ _ i r); try eassumption; try reflexivity.
+    + apply same_ctl_set_rq.
+    + intros Hop. cbn. exact (open_facts _ _ _ _ _ HR Hi Hop).
+    + intros _. cbn. auto.
+  - intros r'. cbn [s_rq set_rq]. rewrite nth_upd_same by (eapply nth_some_lt, Hi). intro E. inversion E. reflexivity.
+Qed.
+
+(** ---------- Request.finish up to requestDone ---------- *)
+
+Section Sim.
+  Variable eager : N.
+  Variable reqs : list reqspec.
+
+  Lemma finish_core_sim ex s m i r s' evs :
+    R ex s m -> nth_error (s_rq s) i = Some r -> r_finished r = false -> r_disc r = false ->
+    finish_core reqs i r s = (s', evs) ->
+    exists m', mon_run m evs = Some m' /\ R (i :: ex) s' m' /\
+               (exists r', nth_error (s_rq s') i = Some r' /\ r_finished r' = true) /\
+               length (s_rq s') = length (s_rq s) /\ s_lost s' = s_lost s /\ s_inchan s' = false /\
+               s_recv s' = s_recv s /\ s_cons s' = s_cons s.
+  Proof.
+    intros HR Hi Hf Hd. destruct (live_is_open _ _ _ _ _ HR Hi Hf) as (Hop & Hh & Hdd & Hn & HS).
+    pose proof (mon_nth _ _ _ _ _ HR Hi) as Hmi. pose proof (nth_some_lt _ _ _ Hi) as Hlt.
+    unfold finish_core.
+    (* the monitor after the head (if needed) and the terminator *)
+    set (m1 := mkMon (upd (m_rq m) i (mkM true false (r_ndef r) (r_pending r))) None false false 0 (m_paused m)).
+    assert (Hrun1 : forall r1 e1, do_head i r = (r1, e1) ->
+              mon_run m (e1 ++ [EEnd i]) = Some m1 /\ r_disc r1 = r_disc r /\ r_pending r1 = r_pending r /\
+              r_ndef r1 = r_ndef r /\ r_nw r1 = r_nw r /\ r_prod r1 = r_prod r).
+    { intros r1 e1. unfold do_head. destruct (r_started r) eqn:Es; intro E; inversion E; subst; clear E.
+      - cbn [app mon_run mon_step]. rewrite Hmi, (is_open_true _ _ Hop), Hh, Hdd, Hd. cbn [andb negb abs x_lost x_ndef x_pend].
+        rewrite ?Hd. repeat split; reflexivity.
+      - cbn [app mon_run mon_step]. rewrite (is_open_true _ _ Hop), Hh, Hdd, Hd. cbn [andb negb m_rq].
+        rewrite Hmi. unfold is_open. cbn [m_open m_head m_dead]. rewrite Hop, Nat.eqb_refl, ?Hdd, ?Hd.
+        cbn [andb negb abs x_lost x_ndef x_pend]. rewrite ?Hd. repeat split; reflexivity. }
+    destruct (do_head i r) as [r1 e1] eqn:Eh. destruct (Hrun1 r1 e1 eq_refl) as (Hr1 & Hd1 & Hp1 & Hnd1 & Hnw1 & Hpr1).
+    unfold request_done. cbn [s_waiting s_rq s_handling s_inchan s_recv s_cons s_cprod s_closing s_lost].
+    set (r2 := mkRq true true (r_disc r1) (r_pending r1) (r_ndef r1) (r_nw r1) false).
+    assert (Hm1rq : m_rq m1 = map abs (upd (s_rq s) i r2)).
+    { unfold m1. cbn [m_rq]. rewrite map_upd, (proj1 HR). f_equal. unfold abs, r2. cbn. rewrite Hd1, Hnd1, Hp1, Hd. reflexivity. }
+    destruct HR as (Hrq & Ho & HC & HD & HF & HG & HJ).
+    assert (Hcommon : forall hand (m2 : mon), m_rq m2 = m_rq m1 -> m_open m2 = None ->
+               (hand = false -> s_waiting s = false -> m_paused m2 = false) ->
+               forall s2, s_rq s2 = upd (s_rq s) i r2 -> s_inchan s2 = false -> s_handling s2 = hand ->
+                          s_waiting s2 = s_waiting s -> s_lost s2 = s_lost s ->
+               R (i :: ex) s2 m2).
+    { intros hand m2 E1 E2 E3 s2 S1 S2 S3 S4 S5. unfold R. repeat split.
+      - rewrite E1, S1. exact Hm1rq.
+      - unfold open_ok. rewrite E2. exact S2.
+      - intros j rj Hj. rewrite S1 in Hj. right. destruct (Nat.eq_dec j i) as [->|Hne].
+        + rewrite nth_upd_same in Hj by exact Hlt. inversion Hj; subst rj. cbn. rewrite Hd1. auto.
+        + rewrite nth_upd_other in Hj by congruence. destruct (HC j rj Hj) as [[_ HSj]|Hfin]; [lia|exact Hfin].
+      - intros _. exact S2.
+      - intros j rj Hj Hex Hc. rewrite S1 in Hj. destruct (Nat.eq_dec j i) as [->|Hne]; [exfalso; apply Hex; left; reflexivity|].
+        rewrite nth_upd_other in Hj by congruence. apply (HF j rj Hj); [|exact Hc]. intro E. apply Hex. right. exact E.
+      - rewrite S3, S4. exact E3.
+      - rewrite S5. intros Hl j rj Hj. rewrite S1 in Hj. destruct (Nat.eq_dec j i) as [->|Hne].
+        + rewrite nth_upd_same in Hj by exact Hlt. inversion Hj; subst rj. cbn. rewrite Hd1. exact Hd.
+        + rewrite nth_upd_other in Hj by congruence. exact (HJ Hl j rj Hj). }
+    assert (Hfacts : (exists r', nth_error (upd (s_rq s) i r2) i = Some r' /\ r_finished r' = true) /\
+                     length (upd (s_rq s) i r2) = length (s_rq s)).
+    { rewrite upd_length, nth_upd_same by exact Hlt. split; [exists r2; split; reflexivity|reflexivity]. }
+    assert (Hnohand : s_handling s = false -> False).
+    { intros Hh0. pose proof (HD Hh0) as C0. unfold open_ok in Ho. rewrite Hop in Ho. destruct Ho as [C _]. congruence. }
+    destruct (q_persist (spec_of reqs i)); destruct (s_waiting s) eqn:Ew; intro E; inversion E; subst; clear E;
+      cbn [app] in *.
+    - exists m1. split; [rewrite ?app_nil_r; exact Hr1|]. split.
+      + eapply (Hcommon false m1); cbn; try reflexivity; try congruence; intros _ C; congruence.
+      + destruct Hfacts as [A B]. cbn. repeat split; auto.
+    - exists (mkMon (m_rq m1) None false false 0 false). split.
+      + change (e1 ++ [EEnd i; ENetResume]) with (e1 ++ [EEnd i] ++ [ENetResume]). rewrite app_assoc, mon_run_app, Hr1. reflexivity.
+      + split; [eapply (Hcommon false); cbn; try reflexivity; try congruence; auto|].
+        destruct Hfacts as [A B]. cbn. repeat split; auto.
+    - exists m1. split.
+      + change (e1 ++ [EEnd i; EClose]) with (e1 ++ [EEnd i] ++ [EClose]). rewrite app_assoc, mon_run_app, Hr1. reflexivity.
+      + split; [eapply (Hcommon (s_handling s) m1); cbn; try reflexivity; try congruence; intros C; exfalso; exact (Hnohand C)|].
+        destruct Hfacts as [A B]. cbn. repeat split; auto.
+    - exists (mkMon (m_rq m1) None false false 0 false). split.
+      + change (e1 ++ [EEnd i; ENetResume; EClose]) with (e1 ++ [EEnd i] ++ [ENetResume; EClose]).
+        rewrite app_assoc, mon_run_app, Hr1. reflexivity.
+      + split; [eapply (Hcommon (s_handling s)); cbn; try reflexivity; try congruence; auto|].
+        destruct Hfacts as [A B]. cbn. repeat split; auto.
+  Qed.
+End Sim.
+
+(** ---------- finished requests stay finished, the list of requests only grows ---------- *)
+
+Definition keeps (s s' : st) : Prop :=
+  length (s_rq s) <= length (s_rq s') /\
+  forall j r, nth_error (s_rq s) j = Some r -> r_finished r = true ->
+              exists r', nth_error (s_rq s') j = Some r' /\ r_finished r' = true.
+
+Lemma keeps_refl s : keeps s s.
+Proof. split; [lia|]. intros j r H F. exists r. auto. Qed.
+
+Lemma keeps_trans a b c : keeps a b -> keeps b c -> keeps a c.
+Proof.
+  intros [L1 K1] [L2 K2]. split; [lia|]. intros j r H F. destruct (K1 j r H F) as (r1 & H1 & F1). exact (K2 j r1 H1 F1).
+Qed.
+
+Lemma keeps_upd s s' i r r' : nth_error (s_rq s) i = Some r -> s_rq s' = upd (s_rq s) i r' ->
+  (r_finished r = true -> r_finished r' = true) -> keeps s s'.
+Proof.
+  intros Hi Hs Hf. split; [rewrite Hs, upd_length; lia|]. intros j rj Hj Fj. rewrite Hs.
+  destruct (Nat.eq_dec j i) as [->|Hne].
+  - rewrite nth_upd_same by (eapply nth_some_lt, Hi). exists r'. split; [reflexivity|]. apply Hf. congruence.
+  - rewrite nth_upd_other by congruence. exists rj. auto.
+Qed.
+
+Lemma app_simple_keeps i a s s' evs : app_simple i a s = Some (s', evs) -> keeps s s'.
+Proof.
+  unfold app_simple. destruct (nth_error (s_rq s) i) as [r|] eqn:Hi; [|intro H; inversion H; apply keeps_refl].
+  destruct a;
+    repeat match goal with |- context [if ?b then _ else _] => destruct b end;
+    try (unfold do_head; destruct (r_started r));
+    intro H; inversion H; subst; try apply keeps_refl;
+    (eapply keeps_upd; [exact Hi|reflexivity|cbn; auto]).
+Qed.
+
+Lemma fire_keeps i ok s : keeps s (fst (fire i ok s)).
+Proof.
+  unfold fire. destruct (nth_error (s_rq s) i) as [r|] eqn:Hi; [|apply keeps_refl]. cbn [fst].
+  eapply keeps_upd; [exact Hi|reflexivity|cbn; auto].
+Qed.
+
+Lemma app_simple_none i a s : app_simple i a s = None ->
+  exists r, nth_error (s_rq s) i = Some r /\ r_disc r = false /\ r_finished r = false.
+Proof.
+  unfold app_simple. destruct (nth_error (s_rq s) i) as [r|]; [|discriminate].
+  destruct a; repeat match goal with |- context [if ?b then _ else _] => destruct b eqn:? end;
+    try (unfold do_head; destruct (r_started r)); try discriminate.
+  all: intros _; exists r; auto.
+Qed.
+
+Section Sim2.
+  Variable eager : N.
+  Variable reqs : list reqspec.
+
+  Lemma finish_core_keeps i r s s' evs : nth_error (s_rq s) i = Some r ->
+    finish_core reqs i r s = (s', evs) -> keeps s s'.
+  Proof.
+    intros Hi. unfold finish_core, request_done. destruct (do_head i r) as [r1 e1].
+    cbn [s_waiting s_rq]. destruct (q_persist (spec_of reqs i)); intro E; inversion E; subst;
+      (eapply keeps_upd; [exact Hi|reflexivity|cbn; auto]).
+  Qed.
+
+  Lemma app_sync_sim ex s m i a s' evs :
+    R ex s m -> ~ In i ex -> app_sync reqs i s a = (s', evs) ->
+    exists m', mon_run m evs = Some m' /\ R ex s' m' /\ keeps s s'.
+  Proof.
+    intros HR Hex. unfold app_sync. destruct (app_simple i a s) as [[s1 e1]|] eqn:Ea.
+    - intro E; inversion E; subst. destruct (app_simple_sim _ _ _ _ _ _ _ HR Hex Ea) as (m' & A & B).
+      exists m'. split; [exact A|]. split; [exact B|]. eapply app_simple_keeps, Ea.
+    - destruct (app_simple_none _ _ _ Ea) as (r & Hi & Hd & Hf). rewrite Hi.
+      destruct (finish_core reqs i r s) as [s1 e1] eqn:Ef.
+      destruct (finish_core_sim reqs _ _ _ _ _ _ _ HR Hi Hf Hd Ef) as (m1 & A1 & R1 & (r' & Hi' & Hf') & _).
+      destruct (fire_sim ex s1 m1 i true r' R1 Hi' Hf') as (m2 & A2 & R2).
+      destruct (fire i true s1) as [s2 e2] eqn:Efi. cbn [fst snd] in *. intro E; inversion E; subst.
+      exists m2. split; [rewrite mon_run_app, A1; exact A2|]. split; [exact R2|].
+      eapply keeps_trans; [eapply finish_core_keeps; eauto|]. pose proof (fire_keeps i true s1) as K. rewrite Efi in K. exact K.
+  Qed.
+
+  Lemma run_script_sim ex i acts : forall s m s' evs,
+    R ex s m -> ~ In i ex -> run_script reqs i acts s = (s', evs) ->
+    exists m', mon_run m evs = Some m' /\ R ex s' m' /\ keeps s s'.
+  Proof.
+    induction acts as [|a acts IH]; intros s m s' evs HR Hex; cbn [run_script].
+    - intro E; inversion E; subst. exists m. split; [reflexivity|]. split; [exact HR|apply keeps_refl].
+    - destruct (app_sync reqs i s a) as [s1 e1] eqn:E1. destruct (run_script reqs i acts s1) as [s2 e2] eqn:E2.
+      intro E; inversion E; subst.
+      destruct (app_sync_sim _ _ _ _ _ _ _ HR Hex E1) as (m1 & A1 & R1 & K1).
+      destruct (IH _ _ _ _ R1 Hex E2) as (m2 & A2 & R2 & K2).
+      exists m2. split; [rewrite mon_run_app, A1; exact A2|]. split; [exact R2|]. eapply keeps_trans; eauto.
+  Qed.
+
+  Lemma R_set_paused ex s m b : R ex s m -> s_handling s = true ->
+    R ex s (mkMon (m_rq m) (m_open m) (m_head m) (m_dead m) (m_nw m) b).
+  Proof.
+    unfold R, open_ok. intros (A & B & C & D & F & G & J) Hh. cbn. repeat split; auto. intros C0. congruence.
+  Qed.
+
+  Lemma eager_check_sim ex s m : R ex s m -> s_handling s = true ->
+    exists m', mon_run m (eager_check eager s) = Some m' /\ R ex s m'.
+  Proof.
+    intros HR Hh. unfold eager_check. destruct ((eager <? s_recv s - s_cons s)%N && negb (s_waiting s)).
+    - eexists. split; [reflexivity|]. apply R_set_paused; assumption.
+    - exists m. split; [reflexivity|exact HR].
+  Qed.
+
+  Lemma drain_sim ex rest : forall s m s' evs,
+    R ex s m -> (forall j, In j ex -> j < length (s_rq s)) -> drain eager reqs rest s = (s', evs) ->
+    exists m', mon_run m evs = Some m' /\ R ex s' m' /\ keeps s s'.
+  Proof.
+    induction rest as [|q rest IH]; intros s m s' evs HR Hlt; cbn [drain].
+    { intro E; inversion E; subst. exists m. split; [reflexivity|]. split; [exact HR|apply keeps_refl]. }
+    destruct (s_handling s || s_lost s) eqn:Ehl.
+    { intro E; inversion E; subst. exists m. split; [reflexivity|]. split; [exact HR|apply keeps_refl]. }
+    destruct (s_recv s <? s_cons s + q_len q)%N.
+    { intro E; inversion E; subst. exists m. split; [reflexivity|]. split; [exact HR|apply keeps_refl]. }
+    apply orb_false_iff in Ehl as [Eh El].
+    set (n := length (s_rq s)).
+    set (s1 := mkSt (s_rq s ++ [rq0]) true true (s_recv s) (s_cons s + q_len q) (s_waiting s) (s_cprod s) (s_closing s) (s_lost s)).
+    set (m1 := mkMon (m_rq m ++ [mkM false false 0 []]) (Some n) false false 0 (m_paused m)).
+    assert (Hopen : m_open m = None).
+    { destruct HR as (_ & Ho & _ & HD & _). unfold open_ok in Ho. destruct (m_open m); [|reflexivity].
+      destruct Ho as [C _]. rewrite (HD Eh) in C. discriminate. }
+    assert (Hstep : mon_step m (EProcess n) = Some m1).
+    { cbn [mon_step]. rewrite Hopen. replace (length (m_rq m)) with n by (rewrite (proj1 HR), map_length; reflexivity).
+      rewrite Nat.eqb_refl. reflexivity. }
+    assert (R1 : R ex s1 m1).
+    { destruct HR as (Hrq & Ho & HC & HD & HF & HG & HJ). pose proof (HD Eh) as Hin.
+      assert (Hsplit : forall j rj, nth_error (s_rq s ++ [rq0]) j = Some rj ->
+                (j < n /\ nth_error (s_rq s) j = Some rj) \/ (j = n /\ rj = rq0)).
+      { intros j rj Hj. destruct (Nat.lt_ge_cases j n) as [L|G].
+        - rewrite nth_error_app1 in Hj by exact L. auto.
+        - rewrite nth_error_app2 in Hj by exact G. fold n in Hj. destruct (j - n) as [|k] eqn:Ek.
+          + cbn in Hj. inversion Hj. right. split; [lia|reflexivity].
+          + cbn in Hj. destruct k; discriminate. }
+      unfold R. refine (conj _ (conj _ (conj _ (conj _ (conj _ (conj _ _)))))).
+      - unfold m1, s1. cbn [m_rq s_rq]. rewrite map_app, Hrq. reflexivity.
+      - unfold open_ok, m1, s1. cbn [m_open s_inchan s_rq m_head m_dead m_nw]. split; [reflexivity|]. split; [rewrite app_length; cbn; fold n; lia|].
+        exists rq0. rewrite nth_error_app2 by (fold n; lia). fold n. rewrite Nat.sub_diag. repeat split.
+      - intros j rj Hj. unfold s1 in *. cbn [s_rq s_inchan] in *. rewrite app_length. cbn [length]. fold n.
+        destruct (Hsplit j rj Hj) as [[L Hj']|[-> ->]].
+        + right. destruct (HC j rj Hj') as [[C _]|Fin]; [congruence|exact Fin].
+        + left. split; [reflexivity|lia].
+      - unfold s1. cbn. discriminate.
+      - intros j rj Hj Hex Hc. unfold s1 in Hj. cbn [s_rq] in Hj. destruct (Hsplit j rj Hj) as [[L Hj']|[-> ->]].
+        + exact (HF j rj Hj' Hex Hc).
+        + reflexivity.
+      - unfold s1. cbn. discriminate.
+      - unfold s1. cbn [s_lost s_rq]. intros Hl j rj Hj. destruct (Hsplit j rj Hj) as [[L Hj']|[-> ->]].
+        + exact (HJ Hl j rj Hj').
+        + reflexivity. }
+    assert (Hexn : ~ In n ex) by (intro C; apply Hlt in C; unfold n in C; lia).
+    assert (K01 : keeps s s1).
+    { split; [unfold s1; cbn [s_rq]; rewrite app_length; lia|]. intros j r Hj Fj. exists r. split; [|exact Fj].
+      unfold s1. cbn [s_rq]. rewrite nth_error_app1 by (eapply nth_some_lt, Hj). exact Hj. }
+    fold n. fold s1.
+    destruct (run_script reqs n (q_script q) s1) as [s2 e2] eqn:Es.
+    destruct (run_script_sim _ _ _ _ _ _ _ R1 Hexn Es) as (m2 & A2 & R2 & K12).
+    destruct (s_handling s2) eqn:Eh2.
+    - intro E; inversion E; subst; clear E.
+      destruct ((s_cons s' <? s_recv s')%N && negb (s_closing s')).
+      + destruct (eager_check_sim ex s' m2 R2 Eh2) as (m3 & A3 & R3).
+        exists m3. split; [|split; [exact R3|eapply keeps_trans; eauto]].
+        cbn [mon_run]. rewrite Hstep, mon_run_app, A2. exact A3.
+      + exists m2. split; [|split; [exact R2|eapply keeps_trans; eauto]].
+        cbn [mon_run]. rewrite Hstep, app_nil_r. exact A2.
+    - destruct (drain eager reqs rest s2) as [s3 e3] eqn:Ed. intro E; inversion E; subst; clear E.
+      assert (Hlt2 : forall j, In j ex -> j < length (s_rq s2)).
+      { intros j Hj. apply Hlt in Hj. destruct K01 as [L1 _]. destruct K12 as [L2 _]. lia. }
+      destruct (IH _ _ _ _ R2 Hlt2 Ed) as (m3 & A3 & R3 & K23).
+      exists m3. split; [|split; [exact R3|eapply keeps_trans; [exact K01|eapply keeps_trans; eauto]]].
+      cbn [mon_run]. rewrite Hstep, mon_run_app, A2. exact A3.
+  Qed.
+End Sim2.
